@@ -163,7 +163,7 @@ int rp_run (FILE *sched, const struct rp_harness *h, struct rp_stats *st, const 
 				if (strlen (line) > 2 && !diverged) snprintf (tmsg, sizeof tmsg, "%s [spec taints: %s]", v->msg, line + 2);
 				else snprintf (tmsg, sizeof tmsg, "%s", v->msg);
 				st->violations++;
-				if (viol_dir && st->violations <= 5) save_tour (&cur, viol_dir, prop, st->violations, path, sizeof path);
+				if (viol_dir && rt_should_save (v->oracle)) save_tour (&cur, viol_dir, prop, st->violations, path, sizeof path);
 				if (!st->first_violation[0]) {
 					snprintf (st->first_violation, sizeof st->first_violation, "%s|%s|thread %d|step %ld|%s|%s", v->oracle, v->fn, v->tid, v->step, path, tmsg);
 					st->first_violation_tour = tour_id;
@@ -234,7 +234,7 @@ long rp_explore_from (FILE *sched, const struct rp_harness *h, long runs, unsign
 			const struct rt_viol *v = rt_first_violation ();
 			char path[512] = "-";
 			viols++;
-			if (viol_dir && viols <= 3) {
+			if (viol_dir && rt_should_save (v->oracle)) {
 				FILE *o;
 				snprintf (path, sizeof path, "%s/%s_cont%d_%u_%ld.sched", viol_dir, prop, (int) getpid (), seed, viols);
 				o = fopen (path, "w");
